@@ -279,6 +279,16 @@ func init() {
 					x.Close()
 				}
 			}
+		case "many-open":
+			// 300 logical connections open and idle at the same time on the one session; further ones must still be taken
+			for i := 0; i < 300; i++ {
+				a, tc, err := w.dialApp(3 * time.Second)
+				if err != nil {
+					return append(out, TW("not-served-at-"+fmt.Sprint(i)), TW("iso"), TBool(true))
+				}
+				defer a.Close()
+				defer tc.Close()
+			}
 		case "unix-listener":
 			// the application side is a unix stream socket (every peer has the same empty address): two connections at once, the older
 			// one finishes first, the newer one must go on undisturbed
